@@ -44,6 +44,7 @@ CHECKS = {
     "C14": ("other", "DESIGN.md#c14", "Full within bounds: over a symbolic time grid (<=3 steps) and all subsets of requested times for two observables (own/default), both backends and Pulser's real Observable.__call__ store each observable exactly once per requested time, nowhere else, in order, from the right state.", TECH_M, NOTE_M),
     "C15": ("other", "DESIGN.md#c15", "Part: shot counts, bit order/meaning, weights handed to the sampler (|psi_k|^2, diag rho, MPS conditionals), per-bit readout-flip logic with the RNG and the sampler outcomes as solver-chosen inputs. That the RNG follows the weights is a statistical claim and outside.", TECH_M, NOTE_M),
     "C16": ("other", "DESIGN.md#c16", "Part: the map emu-sv exponentiates at step k equals dt*1e-3*GKSL(H_k, jump operators on every atom) on Hermitian matrices, one exponential per interval, states chained (N<=2, <=3 jump operators); generator lemmas (trace, Hermiticity) under C06. Arnoldi accuracy and positivity under truncation are outside.", TECH_S, NOTE_S),
+    "C17": ("other", "DESIGN.md#107-c07-c08-partial", "Part (deterministic ingredients of one trajectory only; the statistical convergence claim itself is NOT decided): the noisy solver's MPO contracts to H - i/2 sum_q sum_k (L_k^dag L_k)_q and the observable Hamiltonian carries no noise term; do_random_quantum_jump hands the sampler one candidate per (atom, operator) with weights <psi|(L^dag L)_q|psi>, applies the chosen operator and normalises (product states, N<=3, d=2/3, <=2 operators), rebuilds baths, redraws the threshold.", TECH_M, NOTE_M),
     "C18": ("other", "DESIGN.md#c18", "Inductive step from an arbitrary state satisfying the stepping invariant + bounded unrolling from init(): steps complete once, in order; observables recorded once when due; jumps only at a converged bracket inside the step with a sign change. Termination is relative to finitely many jumps and to C19's bisection lemma.", TECH_M, NOTE_M),
     "C19": ("other", "DESIGN.md#c19", "One-step inductive invariants of the real BrentsRootFinder (queries inside the bracket, bracket shrinks, sign change kept, convergence post-condition) for symbolic states and adversarial ordinates, ranking lemma T1 for the solver's regime, bounded unrollings incl. exact-zero ordinates under Python division semantics. Termination outside T1 only to depth 2-3.", TECH_M, NOTE_M),
     "C20": ("other", "DESIGN.md#c20", "For n<=5 (quick) / n<=6 (thorough) knots with symbolic values (and symbolic spacings for n<=4): knot interpolation, C1, Fritsch-Carlson monotonicity region of the code's slopes, equality with a reference PCHIP and query routing, each decided by z3 for all real inputs.", TECH_S, NOTE_S),
@@ -62,7 +63,6 @@ CHECKS = {
 }
 
 NOT_APPLICABLE = {
-    "C17": "Statistical convergence of trajectory averages; needs the RNG and the full numeric evolution. Its deterministic ingredients are decided under C05, C18, C24.",
     "C28": "Norm/energy conservation of the floating-point propagators (TDVP sweeps with Krylov steps and truncation); the exact-arithmetic ingredient (Hermiticity of H) is a lemma checked under C05/C06.",
     "C31": "A finite compatibility matrix of third-party releases decided by running the package; there is no input to make symbolic and only pulser-core 1.9.1 exists offline.",
 }
